@@ -16,19 +16,20 @@ import (
 )
 
 var (
-	flagProp   = flag.String("verif.prop", "", "property id")
-	flagSeed   = flag.Uint64("verif.seed", 1, "VERIF_SEED")
-	flagFrom   = flag.Int("verif.from", 0, "first run index")
-	flagStride = flag.Int("verif.stride", 1, "run index stride (number of workers)")
-	flagMax    = flag.Int("verif.max", 1<<30, "max runs for this worker")
-	flagBudget = flag.Float64("verif.budget", 30, "wall-clock budget in seconds")
-	flagTier   = flag.String("verif.tier", "quick", "quick|thorough")
-	flagOut    = flag.String("verif.out", "", "JSONL output file")
-	flagReplay = flag.String("verif.replay", "", "replay file to execute instead of generating")
-	flagKnown  = flag.String("verif.known", "", "known findings file (read-only)")
-	flagRepDir = flag.String("verif.replaydir", "/verif/replays", "directory for replay files")
-	flagTrace  = flag.Bool("verif.trace", false, "print per-run trace hash lines (determinism self-test)")
-	flagScratch = flag.String("verif.scratch", "", "scratch root (default /dev/shm/verif-<pid>)")
+	flagProp     = flag.String("verif.prop", "", "property id")
+	flagSeed     = flag.Uint64("verif.seed", 1, "VERIF_SEED")
+	flagFrom     = flag.Int("verif.from", 0, "first run index")
+	flagStride   = flag.Int("verif.stride", 1, "run index stride (number of workers)")
+	flagMax      = flag.Int("verif.max", 1<<30, "max runs for this worker")
+	flagBudget   = flag.Float64("verif.budget", 30, "wall-clock budget in seconds")
+	flagTier     = flag.String("verif.tier", "quick", "quick|thorough")
+	flagOut      = flag.String("verif.out", "", "JSONL output file")
+	flagReplay   = flag.String("verif.replay", "", "replay file to execute instead of generating")
+	flagKnown    = flag.String("verif.known", "", "known findings file (read-only)")
+	flagWatchdog = flag.Int("verif.watchdog", 180, "seconds without progress before the process gives up (exit 2)")
+	flagRepDir   = flag.String("verif.replaydir", "/verif/replays", "directory for replay files")
+	flagTrace    = flag.Bool("verif.trace", false, "print per-run trace hash lines (determinism self-test)")
+	flagScratch  = flag.String("verif.scratch", "", "scratch root (default /dev/shm/verif-<pid>)")
 )
 
 // PropSpec binds a property to its generator and executor.
@@ -172,7 +173,7 @@ func Main(t *testing.T, engine string, props map[string]PropSpec) {
 	}
 	_ = os.MkdirAll(Scratch(), 0o755)
 	defer os.RemoveAll(Scratch())
-	startWatchdog(180 * time.Second)
+	startWatchdog(time.Duration(*flagWatchdog) * time.Second)
 
 	if *flagReplay != "" {
 		b, err := os.ReadFile(*flagReplay)
